@@ -168,6 +168,58 @@ func (r *Reporter) Finish(cov Coverage) int {
 		"wall_s":      time.Since(r.start).Seconds(),
 		"violations":  unknown,
 	}
+	// a check made of two engines runs them one after the other; the second merges its evidence into the first's
+	if os.Getenv("VERIF_EVIDENCE_APPEND") != "" {
+		if pb, err := os.ReadFile(filepath.Join(Root, "evidence", r.Prop+".json")); err == nil {
+			var prev map[string]interface{}
+			if json.Unmarshal(pb, &prev) == nil {
+				if pc, ok := prev["coverage"].(map[string]interface{}); ok {
+					for _, k := range []string{"states", "transitions", "traces_validated_against_impl", "evaluations", "distinct_nontrivial"} {
+						pv, _ := pc[k].(float64)
+						switch cv := cov[k].(type) {
+						case int:
+							cov[k] = cv + int(pv)
+						case nil:
+							if pv > 0 {
+								cov[k] = int(pv)
+							}
+						}
+					}
+					if ps, ok := pc["samples"].([]interface{}); ok {
+						if cs, ok := cov["samples"].([]interface{}); ok {
+							cov["samples"] = append(ps, cs...)
+						}
+					}
+					if pe, ok := pc["exhaustive"].(bool); ok && !pe {
+						cov["exhaustive"] = false
+					}
+					cov["first_part"] = pc
+				}
+				if pl, ok := prev["level"].(string); ok {
+					ev["level"] = pl
+				}
+				if pr, ok := pc0(prev)["rule"].(string); ok {
+					if cr, ok := cov["rule"].(string); ok {
+						cov["rule"] = pr + " || second part: " + cr
+					}
+				}
+				if pa, ok := prev["assumptions"].([]interface{}); ok {
+					for _, a := range pa {
+						if as, ok := a.(string); ok {
+							r.Assume = append(r.Assume, as)
+						}
+					}
+					ev["assumptions"] = r.Assume
+				}
+				if pv, ok := prev["violations"].(float64); ok {
+					ev["violations"] = unknown + int(pv)
+				}
+				if pw, ok := prev["wall_s"].(float64); ok {
+					ev["wall_s"] = time.Since(r.start).Seconds() + pw
+				}
+			}
+		}
+	}
 	b, _ := json.MarshalIndent(ev, "", " ")
 	_ = os.MkdirAll(filepath.Join(Root, "evidence"), 0o755)
 	if err := os.WriteFile(filepath.Join(Root, "evidence", r.Prop+".json"), append(b, '\n'), 0o644); err != nil {
@@ -279,4 +331,12 @@ func ParallelFor(n, w int, fn func(worker, i int)) {
 		}(k)
 	}
 	wg.Wait()
+}
+
+
+func pc0(prev map[string]interface{}) map[string]interface{} {
+	if pc, ok := prev["coverage"].(map[string]interface{}); ok {
+		return pc
+	}
+	return map[string]interface{}{}
 }
